@@ -398,11 +398,149 @@ def r14e(ctx, rep, rule="R14e"):
     rep.floor(rule, "interleaved get->put loops between two popped vectors", n, 1)
 
 
+def r14f(ctx, rep, rule="R14f"):
+    facts = ctx["facts"]
+    rep.rule(rule, "eqv? separates exact from inexact: Number's PartialEq is numeric equality across representations "
+             "((= 2 2.0) is true), so the number arm of Vm::eqv — which equal?, memv, assv, member, assoc and case are built "
+             "on — must also observe the representation of both operands (a discriminant read of each Number, or an "
+             "exactness predicate on each); R7RS 6.1: eqv? is #f when one argument is exact and the other inexact.")
+    f = need(rep, rule, facts, "marwood::vm::compare::<impl marwood::vm::Vm>::eqv")
+    if f is None:
+        return
+    eqs = [(bb, t) for bb, t in f.calls() if "marwood::number::Number as std::cmp::PartialEq" in (t.get("fnargs") or "")
+           and len(t["args"]) == 2]
+    if not eqs:
+        rep.anchor_lost(rule, "comparison of two Numbers in Vm::eqv")
+        return
+
+    def chain(op):
+        out = set()
+        cur = op
+        for _ in range(6):
+            pl = op_place(cur)
+            if pl is None:
+                break
+            out.add(pl["l"])
+            sd = f.single_def(pl["l"])
+            if sd is None or sd[2] != "assign":
+                break
+            rv = sd[3]["rv"]
+            if rv["k"] == "ref":
+                if not [e for e in rv["place"]["p"] if e != "*"]:
+                    cur = {"copy": rv["place"]}
+                    continue
+                break
+            if rv["k"] == "use":
+                cur = rv["a"]
+                continue
+            break
+        return out
+
+    for i, (bb, t) in enumerate(eqs):
+        seen = []
+        for k in (0, 1):
+            locs = chain(t["args"][k])
+            obs = False
+            for b2, j, st in f.stmts():
+                if st["rv"]["k"] == "disc" and st["rv"]["place"]["l"] in locs and "number::Number" in st["rv"]["place"].get("ty", "number::Number"):
+                    obs = True
+            for b2, t2 in f.calls():
+                c = callee(t2) or ""
+                if c.startswith("marwood::number::Number::") and any(w in c.rsplit("::", 1)[-1] for w in ("exact", "float")):
+                    if t2["args"] and chain(t2["args"][0]) & locs:
+                        obs = True
+            seen.append(obs)
+        ok = all(seen)
+        (rep.ok if ok else rep.fail)(
+            rule, "%s|eqv|number-arm#%d" % (rule, i + 1),
+            "Vm::eqv observes the representation of both numbers next to their numeric equality" if ok else
+            "Vm::eqv decides two numbers by Number's PartialEq alone (numeric equality across representations): "
+            "(eqv? 2 2.0) and therefore (equal? 2 2.0), (memv 2.0 '(1 2 3)) and (assoc 2.0 '((2 b))) answer as if exact and "
+            "inexact were the same object", [t["loc"]])
+
+
+def r14g(ctx, rep, rule="R14g", only=None, skip=("marwood::vm::builtin::string::",), floor=4):
+    from ..shapes import roots
+    facts = ctx["facts"]
+    rep.rule(rule, "list walkers look at the terminator: a loop of a builtin that follows cdr (VCell::as_cdr) and leaves when "
+             "its cursor is no longer a pair has consumed a *proper* list only if the cursor is then the empty list. On every "
+             "path from that exit to the construction of an Ok result, VCell::is_nil is applied to the cursor (the idiom of "
+             "append / reverse / apply / list?); otherwise an improper list is silently truncated where R7RS requires a list.")
+    n = 0
+    for p, f in sorted(facts.fns.items()):
+        if not p.startswith("marwood::vm::builtin::") or "::{closure" in p:
+            continue
+        if (only and not p.startswith(only)) or (not only and p.startswith(skip)):
+            continue
+        done = set()
+        for src, h in f.back_edges():
+            body = (f.reach_from(h) & f.reach_back(src)) | {h, src}
+            if not any((callee(t) or "").endswith("VCell::as_cdr") for bb, t in f.calls() if bb in body):
+                continue
+            # is_pair tests in the loop whose switch has an edge leaving the loop
+            for bb, t in f.calls():
+                if bb not in body or not (callee(t) or "").endswith("VCell::is_pair") or t.get("target") is None:
+                    continue
+                cur = roots(f, t["args"][0])
+                # the switch controlled by this test (directly, or through `!`)
+                sw = None
+                b2 = t["target"]
+                for _ in range(3):
+                    tt = f.blocks[b2]["term"]
+                    if tt["k"] == "switch":
+                        sw = (b2, tt)
+                        break
+                    if tt["k"] == "goto":
+                        b2 = tt["target"]
+                        continue
+                    break
+                if sw is None:
+                    continue
+                b2, tt = sw
+                o = f.origin(tt["op"])
+                neg = False
+                if o[0] == "rv" and o[1]["rv"]["k"] == "un" and o[1]["rv"]["op"] == "Not":
+                    neg = True
+                    o = f.origin(o[1]["rv"]["a"])
+                if not (o[0] == "call" and o[1] is t):
+                    continue
+                # edge on which is_pair(cursor) is false
+                vals = dict((v, tg) for v, tg in tt["targets"])
+                false_val = 1 if neg else 0
+                not_pair = vals.get(false_val, tt["otherwise"]) if false_val in vals or neg else vals.get(0, tt["otherwise"])
+                if neg and 1 not in vals:
+                    not_pair = tt["otherwise"]
+                key_site = (p, t["loc"]["line"])
+                if key_site in done:
+                    continue
+                done.add(key_site)
+                n += 1
+                nil_blocks = {bb3 for bb3, t3 in f.calls() if (callee(t3) or "").endswith("VCell::is_nil") and roots(f, t3["args"][0]) & cur}
+                # is_nil is a call terminator: the test has happened once its block was executed
+                reach = f.reach_from(not_pair, avoid=nil_blocks)
+                # leaving the loop is not required: `return Ok` inside the loop body on the not-pair edge counts too
+                oks = [bb3 for bb3 in reach if bb3 not in body or f.dominates(not_pair, bb3)
+                       for st in f.blocks[bb3]["stmts"] if st["lhs"]["l"] == 0 and not st["lhs"]["p"] and st["rv"]["k"] == "agg"
+                       and st["rv"].get("variant") == "Ok"]
+                nm = f.short.rsplit("::", 1)[-1]
+                k = len([1 for x in done if x[0] == p])
+                key = "%s|%s|walk#%d" % (rule, nm, k)
+                if oks:
+                    rep.fail(rule, key, "%s follows cdr until its cursor is not a pair and can then return Ok without testing that "
+                             "the cursor is the empty list: the tail of an improper list is dropped silently "
+                             "(e.g. (1 2 . 3) is treated as (1 2))" % f.short, [t["loc"]])
+                else:
+                    rep.ok(rule, key, "%s: after the cdr walk the terminator is tested with is_nil before any Ok" % f.short, [t["loc"]])
+    rep.floor(rule, "cdr-walking loops with an is_pair exit in the builtins%s" % (" (%s)" % only if only else ""), n, floor)
+
+
 def run(ctx, rep):
     r14a(ctx, rep)
     r14b(ctx, rep)
     r14c(ctx, rep)
     r14d(ctx, rep)
     r14e(ctx, rep)
+    r14f(ctx, rep)
+    r14g(ctx, rep)
     rep.not_decided += ["that each procedure returns what R7RS specifies (value-level)",
                         "error-versus-wrong-answer for out-of-range indices", "equal?"]
